@@ -51,7 +51,8 @@ import "net/netip"
 //@ func parsePeerIndexTable
 //@   claims bounds div0 make
 //@ func parseRibEntry
-//@   claims bounds div0 make
+//@   claims bounds div0 make frame
+//@   modifies nothing
 //@ func parseGeoPeerTable
 //@   claims bounds div0 make
 
@@ -95,6 +96,8 @@ func verifMRTPeerFraming(bgpid, ipaddr netip.Addr, asn uint32, isAS4 bool) bool 
 // parsed record says which one it was (a record that forgets it is written back with AFI 0 / SAFI 0)
 //@ props C19
 //@ func parseRib
+//@   assume-callee-frames
 //@   tag C19
-//@   claims at-return
+//@   claims at-return inv-init inv-keep
+//@   loop 0 invariant u.Family == family
 //@   at-return requires ret0 != nil ==> ret0.Family == family
